@@ -102,7 +102,7 @@ PROPS = {
     'C06': {
         'engines': [{'name': 'so', 'timeout_quick': 600, 'timeout_thorough': 7200}],
         'trusted_base': ['mkstemp shim: sorter.c compiled with -Dmkstemp=vp_mkstemp (records every template)', 'MTBL_VERIF hook: MIN_SORTER_MEMORY lowered to 1 so that multi-chunk sorts are reachable'],
-        'assumptions': ['PARTIAL: T06b (spill bound), T06d (refusal after iteration), T06c (chunks strictly sorted for any key-ordering sort function) are proved; the full output statement C06_statement needs the merger theorem of C04',
+        'assumptions': ['T06a_sorter_output assumes a total, associative merge function (for a non-associative one the code itself makes the result depend on the chunking)',
                         'qsort: any function returning a key-sorted permutation (not assumed stable); the engine therefore compares merged values as multisets of atoms',
                         'pools: the model is the sequential view; that pooled runs give the same entries is checked by running pools 0..8 (schedules: C13)'],
         'explanation': 'Implementation vs model/Sorter.v vs specification (each distinct key once, ascending, value = fold of exactly the values added) over add sequences x max_memory (1 .. all in memory, spill-rule boundaries) x pools 0..8 x {iterator, mtbl_sorter_write}; mkstemp templates must lie in the configured directory; number of spills must equal the model\'s; add/write after iteration must be refused.',
